@@ -148,7 +148,7 @@ class Module:
         self.tree = ast.parse(source, filename=relpath)
         if os.environ.get("SA_NO_NORMALIZE") != "1":
             from . import normalize
-            self.tree = normalize.normalize(self.tree, relpath)
+            self.tree = normalize.normalize(self.tree, relpath, hashlib.sha256(source.encode("utf8", "replace")).hexdigest())
         set_parents(self.tree)
         for n in ast.walk(self.tree):
             if not isinstance(n, _SINGLETONS):
